@@ -95,34 +95,42 @@ func Tours(g *tla.Graph, seed int64, maxLen int) []Behaviour {
 		}
 		return -1
 	}
-	// BFS over all edges from n to the nearest node with an unused out-edge
+	// BFS over all edges from n to the nearest node with an unused out-edge (epoch-stamped arrays)
+	prev := make([]int32, len(g.Out))
+	depth := make([]int32, len(g.Out))
+	stamp := make([]int32, len(g.Out))
+	var epoch int32
+	dead := make([]bool, len(g.Out)) // no unused edge reachable from here any more
 	pathTo := func(n int, budget int) []int {
-		prev := map[int]int{n: -1}
+		epoch++
+		stamp[n], prev[n], depth[n] = epoch, -1, 0
 		queue := []int{n}
-		depth := map[int]int{n: 0}
-		for len(queue) > 0 {
-			x := queue[0]
-			queue = queue[1:]
+		for qi := 0; qi < len(queue); qi++ {
+			x := queue[qi]
 			if x != n && nextUnused(x) >= 0 {
 				var path []int
 				for y := x; prev[y] >= 0; y = g.Edges[prev[y]].From {
-					path = append(path, prev[y])
+					path = append(path, int(prev[y]))
 				}
 				for i, j := 0, len(path)-1; i < j; i, j = i+1, j-1 {
 					path[i], path[j] = path[j], path[i]
 				}
 				return path
 			}
-			if depth[x] >= budget {
+			if int(depth[x]) >= budget {
 				continue
 			}
 			for _, e := range g.Out[x] {
 				t := g.Edges[e].To
-				if _, ok := prev[t]; !ok {
-					prev[t] = e
-					depth[t] = depth[x] + 1
+				if stamp[t] != epoch && !dead[t] {
+					stamp[t], prev[t], depth[t] = epoch, int32(e), depth[x]+1
 					queue = append(queue, t)
 				}
+			}
+		}
+		if budget >= len(g.Out) { // exhaustive search found nothing: everything visited is dead
+			for _, x := range queue {
+				dead[x] = true
 			}
 		}
 		return nil
@@ -154,8 +162,8 @@ func Tours(g *tla.Graph, seed int64, maxLen int) []Behaviour {
 		for len(es) < maxLen {
 			e := nextUnused(cur)
 			if e < 0 {
-				p := pathTo(cur, maxLen-len(es)-1)
-				if p == nil {
+				p := pathTo(cur, len(g.Out))
+				if p == nil || len(es)+len(p) >= maxLen {
 					break
 				}
 				es = append(es, p...)
